@@ -179,7 +179,7 @@ def _resolve_ranges(fn, expr, depth=0):
     return None
 
 
-def options_forwarded(ctx, rule="C23.R9"):
+def options_forwarded(ctx, rule="C23.R9", only=None):
     """"within the solver tolerance" means the tolerance the solver was CONFIGURED with: every nonlinear solve a solver performs hands the
     solver's options (self.options, or the constructor's `options` parameter that is stored there) to fsolve.  A call without `options=`
     solves with SolverOptions() defaults (1e-6), so with a tighter configured tolerance that point - e.g. the first point of a Riks path -
@@ -187,7 +187,7 @@ def options_forwarded(ctx, rule="C23.R9"):
     rep = ctx.rep
     n = 0
     for rel, mod in sorted(ctx.repo.modules.items()):
-        if not rel.startswith("cardillo/solver/"):
+        if not rel.startswith("cardillo/solver/") or (only is not None and rel != only):
             continue
         for q, fn in mod.defs().items():
             if not isinstance(fn, ast.FunctionDef):
@@ -210,8 +210,8 @@ def options_forwarded(ctx, rule="C23.R9"):
                                 "so the point it produces can miss the solver tolerance by orders of magnitude without a warning", f"{rel}:{w.lineno}")
                     else:
                         rep.bad(rule, C, w, f"fsolve is handed `{norm_src(kw)}` instead of the solver's options", f"{rel}:{w.lineno}")
-    if n < 6:
-        raise AnalysisError(f"{rule}: only {n} fsolve calls found in cardillo/solver")
+    if n < (6 if only is None else 1):
+        raise AnalysisError(f"{rule}: only {n} fsolve calls found in {only or 'cardillo/solver'}")
 
 
 def step_limit_loud(ctx):
